@@ -1,7 +1,7 @@
 /-
 Driver for C19 (dags): one operation per line on stdin, one result per line on stdout.
 A graph is a sequence of words `<node>:<out>,<out>,...` (`<node>:-` for no outs);
-nodes are decimal numbers.
+nodes are decimal numbers.  A word `names=<scheme>` is ignored.
 
   check <graph>               CheckDAG: ok | missing | circle <len> | panic | fuel
   probe <graph>               the same (the harness runs it in a child process under a watchdog)
@@ -71,7 +71,8 @@ def newMapErr : NewMapRes → String
   | .outOfFuel => "fuel"
 
 def step (_ : Unit) (line : String) : Unit × String :=
-  let ws := words line
+  -- `names=<scheme>` only tells the harness how to spell the nodes; the model keys by identity
+  let ws := (words line).filter fun w => !(w.startsWith "names=")
   let out :=
     match ws with
     | "check" :: rest =>
